@@ -172,8 +172,8 @@ public:
 
         if (!full()) {
             _storage.push_back(etl::move(value));
-            auto* pos = rotate(p, _storage.end() - 1, _storage.end());
-            return make_pair(pos, true);
+            rotate(p, _storage.end() - 1, _storage.end());
+            return make_pair(p, true);
         }
 
         return pair<iterator, bool>(nullptr, false);
